@@ -158,10 +158,14 @@ impl Scenario for S7 {
                     added += 1;
                 } else if res == 2 {
                     stats.fault("full_insert");
+                } else if res == 4 {
+                    // a successful delete (cuckoo) takes exactly one copy away again
+                    added = added.saturating_sub(1);
+                    stats.probe("prefix_with_delete");
                 }
                 if let Some(e) = a.is_empty() {
                     if e != (added == 0) {
-                        viol.push(v(format!("{}/is_empty", name), step, format!("is_empty() = {} after {} successful additions", e, added)));
+                        viol.push(v(format!("{}/is_empty", name), step, format!("is_empty() = {} with {} more successful additions than deletes", e, added)));
                         return;
                     }
                 }
@@ -203,6 +207,8 @@ impl Scenario for S7 {
                 }
                 if oka {
                     added += 1;
+                } else if ra == 4 {
+                    added = added.saturating_sub(1);
                 }
                 if ra != rf {
                     viol.push(v(format!("{}/clear/continuation-result-differs", name), step, format!("operation {} of the continuation returned {} on the cleared instance, {} on the fresh one", i + 1, ra, rf)));
@@ -215,7 +221,7 @@ impl Scenario for S7 {
                 }
                 if let Some(e) = a.is_empty() {
                     if e != (added == 0) {
-                        viol.push(v(format!("{}/is_empty", name), step, format!("is_empty() = {} after clear() and {} successful additions", e, added)));
+                        viol.push(v(format!("{}/is_empty", name), step, format!("is_empty() = {} after clear() with {} more successful additions than deletes", e, added)));
                         return;
                     }
                 }
